@@ -74,6 +74,8 @@ impl HistSpace for Space {
     fn max_len(&self) -> usize { self.depth + 1 }
     fn check(&self, ctx: &Ctx, hist: &[u16], index: u64) { check_text(ctx, self.label, index, &text_of(hist, &self.toks), &self.seed, &self.curve) }
 }
+pub fn for_index_text(i: u32) -> Option<String> { hdk::Path::for_index(i as usize).ok().map(|p| p.to_string()) }
+
 pub fn run(ctx: &'static Ctx) {
     let seed = filler_bytes(ctx.seed, 0xC14, 64);
     bfs(ctx, Space { depth: if ctx.quick() { 2 } else { 3 }, toks: tokens(), seed: seed.clone(), curve: Curve::new(), label: "bfs-path-tokens" });
@@ -103,4 +105,5 @@ pub fn run(ctx: &'static Ctx) {
         }
     });
     ctx.guard_check("accepting and rejecting states seen", ctx.classes_matching(|c| c.ends_with(":accepted")) > 0 && ctx.classes_matching(|c| c.ends_with(":rejected")) > 0, "both outcomes occurred");
+    crate::hist::histories(ctx, P, "path-histories", "Path::from_str / Display / for_index, a sequence on one fresh thread", crate::hist::c14_ops());
 }
